@@ -239,6 +239,24 @@ func c04(repo string, out *fg.Out) error {
 		}
 	}
 
+	// convertColumnsToTyped refuses columns of unequal length (the chokepoint every generic write passes)
+	_, ccBody, err := fn(f, "ArrowBuffer", "convertColumnsToTyped")
+	if err != nil {
+		return err
+	}
+	convChecksLen := strings.Contains(ccBody, "} else if len(col) != numRecords { return nil, 0, fmt.Errorf(")
+	// decodeRow rejects a tag or a field called "time"
+	mdf, err := fg.ParseFile(repo, "internal/ingest/msgpack.go")
+	if err != nil {
+		return err
+	}
+	_, drBody, err := fn(mdf, "MessagePackDecoder", "decodeRow")
+	if err != nil {
+		return err
+	}
+	rowRejectsTime := strings.Contains(drBody, `if _, ok := tags["time"]; ok { return nil, fmt.Errorf(`) &&
+		strings.Contains(drBody, `if _, ok := fields["time"]; ok { return nil, fmt.Errorf(`)
+
 	// ---- 7. WAL envelope
 	wf, err := fg.ParseFile(repo, "internal/wal/wal.go")
 	if err != nil {
@@ -402,6 +420,8 @@ func c04(repo string, out *fg.Out) error {
 	fmt.Fprintf(w, "/-- applyPermutation bounds-checks `col[idx]` -/\ndef permBoundsChecked : Bool := %s\n", b(permChecked))
 	fmt.Fprintf(w, "/-- sortTypedColumnBatchByKeys bounds-checks `valid[idx]` -/\ndef validPermBoundsChecked : Bool := %s\n", b(validPermChecked))
 	fmt.Fprintf(w, "/-- sliceColumnsByIndices bounds-checks (`if idx < colLen`) -/\ndef sliceBoundsChecked : Bool := %s\n", b(sliceChecked))
+	fmt.Fprintf(w, "/-- convertColumnsToTyped returns an error when two non-empty columns differ in length -/\ndef convertChecksLengths : Bool := %s\n", b(convChecksLen))
+	fmt.Fprintf(w, "/-- MessagePackDecoder.decodeRow rejects a tag or field called \"time\" -/\ndef decodeRowRejectsTime : Bool := %s\n", b(rowRejectsTime))
 	fmt.Fprintf(w, "/-- rowsToColumnar guards against a tag/field called \"time\" -/\ndef rowTimeGuard : Bool := %s\n", b(rowTimeGuard))
 	fmt.Fprintf(w, "/-- some flush goroutine (flushWorker, periodicFlush, flushRecordsAsync, flushAgedBuffers) recovers -/\ndef flushGoroutinesRecover : Bool := %s\n", b(flushRecover))
 	fmt.Fprintf(w, "/-- ArrowBuffer.Write validates every record before buffering the first -/\ndef writeAtomic : Bool := %s\n", b(writeAtomic))
@@ -422,6 +442,8 @@ func c04(repo string, out *fg.Out) error {
 	out.JSON["write_rejects_empty_name"] = writeRejectsEmpty
 	out.JSON["perm_bounds_checked"] = permChecked
 	out.JSON["row_time_guard"] = rowTimeGuard
+	out.JSON["convert_checks_lengths"] = convChecksLen
+	out.JSON["decode_row_rejects_time"] = rowRejectsTime
 	out.JSON["flush_goroutines_recover"] = flushRecover
 	out.JSON["env_header_cap"] = envCap
 	out.JSON["handler_panics_recovered"] = handlerRecover
